@@ -7,7 +7,8 @@
    writers by parsing their output back. *)
 From Coq Require Import Init.Byte ZArith List Bool.
 Require Import Ojg.Base.Bytes Ojg.Base.Jv Ojg.Json.Writer Ojg.Json.WriterFacts.
-Require Import Ojg.Json.Machine Ojg.Json.Ref Ojg.Json.RefParse Ojg.Json.WRound Ojg.Json.WInt Ojg.Json.WFinal Ojg.Json.WExpected.
+Require Import Ojg.Json.Machine Ojg.Json.Ref Ojg.Json.RefParse Ojg.Json.WRound Ojg.Json.WInt Ojg.Json.WFinal Ojg.Json.WExpected Ojg.Json.ParseWrite.
+Require Import Ojg.Json.Sweep Ojg.Json.DataInv Ojg.Json.Frontends Ojg.Json.Sweep_parser Ojg.Json.Sweep_gen Ojg.Json.DSweeps Ojg.Json.ValueSim Ojg.Json.ValueSimSweeps.
 Import ListNotations.
 
 Theorem C04_stream_eq : forall o lim v, write_all o (Some lim) v = write_all o None v.
@@ -51,5 +52,26 @@ Proof. vm_compute. reflexivity. Qed.
    stay pairwise distinct after sanitizing *)
 Theorem C04_toref_is_expected : forall o v, distinct_keys (expected o v) -> toref o v = numtext (expected o v).
 Proof. exact toref_expected. Qed.
+
+
+(* C04 and C02 composed: oj.Parser and gen.Parser on the writer's output deliver exactly the written
+   tree, for every option set and WriteLimit, for trees of null, booleans, integers from
+   -9223372036854775807 to 9223372036854775799, strings that are valid UTF-8, arrays and objects with
+   distinct names and no member the options omit (clean). *)
+Definition C04_parse_write (one : bool) (K : cfg) : Prop :=
+  forall o lim v,
+    let v' := if w_sort o then sort_tree v else v in
+    clean o v' ->
+    match run_all K (write_all o lim v) with
+    | OOk docs _ => docs = [v']
+    | _ => False
+    end.
+Theorem C04_parse_write_parser : C04_parse_write true fe_parser.
+Proof. exact (parse_write true fe_parser eq_refl sweep_parser dsweep_parser simsweep_parser). Qed.
+Theorem C04_parse_write_gen : C04_parse_write true fe_gen.
+Proof. exact (parse_write true fe_gen eq_refl sweep_gen dsweep_gen simsweep_gen). Qed.
+Theorem C04_parse_write_parser_multi : C04_parse_write false fe_parser_multi.
+Proof. exact (parse_write false fe_parser_multi eq_refl sweep_parser_multi dsweep_parser_multi simsweep_parser_multi). Qed.
+Print Assumptions C04_parse_write_parser.
 
 Print Assumptions C04_round_trip.
